@@ -163,6 +163,33 @@ def run(ctx):
                  _der.encode_sequence(_der.encode_integer(1), _der.encode_octet_string(sk.to_string()), _der.encode_constructed(1 << 4, hoid))]
         spki += [_der.encode_sequence(_der.encode_sequence(alg, hoid), ptbits), _der.encode_sequence(_der.encode_sequence(hoid, c.encoded_oid), ptbits),
                  _der.encode_sequence(_der.encode_sequence(alg, c.encoded_oid), _der.encode_bitstring(b"\x04" + b"\xff" * 3000, 0))]
+        # every field of the three containers replaced by edge contents (empty, one byte, wrong type, over-long)
+        E = _der
+        edge_pts = [b"", b"\x00", b"\x02", b"\x03", b"\x04", b"\x06", b"\x07", b"\x04\x00", vk.to_string("uncompressed")[:-1],
+                    vk.to_string("uncompressed") + b"\x00", vk.to_string("raw")]
+        for pt in edge_pts:
+            spki.append(E.encode_sequence(E.encode_sequence(alg, c.encoded_oid), E.encode_bitstring(pt, 0)))
+            priv.append(E.encode_sequence(E.encode_integer(1), E.encode_octet_string(sk.to_string()), E.encode_constructed(0, c.encoded_oid),
+                                          E.encode_constructed(1, E.encode_bitstring(pt, 0))))
+        spki += [E.encode_sequence(E.encode_sequence(alg, c.encoded_oid), b"\x03\x00"), E.encode_sequence(E.encode_sequence(), ptbits),
+                 E.encode_sequence(E.encode_sequence(alg), ptbits), E.encode_sequence(E.encode_sequence(alg, c.encoded_oid)),
+                 E.encode_sequence(E.encode_sequence(alg, c.encoded_oid), E.encode_octet_string(b"\x04")), E.encode_sequence(),
+                 E.encode_sequence(E.encode_integer(0), ptbits), E.encode_sequence(E.encode_sequence(alg, c.encoded_oid), ptbits, ptbits)]
+        for dstr in (b"", b"\x00", b"\x01", b"\xff" * (c.baselen + 1), b"\x00" * (c.baselen + 1), b"\x00" * c.baselen, b"\xff" * c.baselen,
+                     c.order.to_bytes(c.baselen, "big"), b"\x01" * 300):
+            inner = E.encode_sequence(E.encode_integer(1), E.encode_octet_string(dstr), E.encode_constructed(0, c.encoded_oid))
+            priv.append(inner)
+            priv.append(E.encode_sequence(E.encode_integer(0), E.encode_sequence(alg, c.encoded_oid), E.encode_octet_string(inner)))
+        priv += [E.encode_sequence(E.encode_integer(1), E.encode_octet_string(sk.to_string())),                      # no parameters at all
+                 E.encode_sequence(E.encode_integer(1), E.encode_octet_string(sk.to_string()), E.encode_constructed(0, b"")),
+                 E.encode_sequence(E.encode_integer(1), E.encode_octet_string(sk.to_string()), E.encode_constructed(1, c.encoded_oid)),
+                 E.encode_sequence(E.encode_integer(1), E.encode_octet_string(sk.to_string()), E.encode_constructed(0, E.encode_sequence())),
+                 E.encode_sequence(E.encode_integer(1)), E.encode_sequence(E.encode_integer(1), E.encode_integer(5)), E.encode_sequence(),
+                 E.encode_sequence(E.encode_integer(0), E.encode_sequence(alg, c.encoded_oid), E.encode_octet_string(b"")),
+                 E.encode_sequence(E.encode_integer(0), E.encode_sequence(alg, c.encoded_oid), E.encode_octet_string(b"\x30\x00")),
+                 E.encode_sequence(E.encode_integer(0), E.encode_sequence(alg, c.encoded_oid), E.encode_integer(7)),
+                 E.encode_sequence(E.encode_integer(0), E.encode_sequence(), E.encode_octet_string(sk.to_der())),
+                 E.encode_sequence(E.encode_integer(2), E.encode_sequence(alg, c.encoded_oid), E.encode_octet_string(sk.to_der()))]
         points = [m for enc in ("raw", "uncompressed", "compressed", "hybrid") for m in mutations(vk.to_string(enc), subs[:8], rnd, 1500)]
         skstr = mutations(sk.to_string(), subs[:6], rnd, 800) + [b"\x00" * c.baselen, b"\xff" * c.baselen, c.order.to_bytes(c.baselen, "big")]
         sig = sk.sign_deterministic(b"c10")
